@@ -59,7 +59,7 @@ class Inst(object):
     __slots__ = (
         "token", "tmpl", "vars", "n", "recv", "task", "started", "done", "awaiting", "syncing",
         "ctxs", "nyield", "parent", "outcome", "struct_paths", "depth", "closed", "nstep", "escaped",
-        "start_at", "done_at", "nc", "yield_n0",
+        "start_at", "done_at", "nc", "yield_n0", "shared",
     )
 
     def __init__(self, token, tmpl, args, parent=None):
@@ -82,6 +82,7 @@ class Inst(object):
         self.escaped = None
         self.nc = 0
         self.yield_n0 = 0
+        self.shared = False
         self.start_at = None
         self.done_at = None
         self.depth = 0 if parent is None else parent.depth + 1
@@ -130,6 +131,8 @@ def build_leaf(B, inst, node):
         args = []
         if inst.vars:
             args = [inst.vars[i % len(inst.vars)] for i in node[2]]
+            for a in args:
+                B.handed_out(a)
         child = Inst("%s.%d" % (inst.token, inst.n), tmpl, args, inst)
         inst.n += 1
         return B.call(inst, child)
